@@ -694,3 +694,70 @@ def rule_append_at_walked_tail(ctx, files=("hdf/src/dfan.c", "hdf/src/mfan.c")):
                     ctx.violated("APPENDTAIL", key, f.where(s.get("l", f.line)), "the new node is linked with `%s`, not through the variable that walked to the tail (%s): the blocks between are cut out of the list" % (render(x)[:50], ", ".join(sorted(walkers))))
     ctx.floor("APPENDTAIL", 1, n, "(appends of a fresh node to a walked list)")
     return n
+
+
+def rule_annlist_capacity(ctx):
+    """LISTCAP (C11, C02): ANannlist(an, type, tag, ref, list) has no capacity argument: it stores the id of *every* annotation
+    of that type on the tag/ref, as many as ANnumann reports.  A caller that allocates the list therefore sizes it with the
+    ANnumann result itself; a count that was cut down to the caller's own output arrays in between (`if (n > size) n = size`)
+    allocates `size` slots for `n` ids and the heap block is overrun."""
+    from .rules_loops import seq_of, redefines
+    from .facts import calls_in
+    prog = ctx.prog
+    n = 0
+    for f in prog.funcs:
+        ast = f.raw.get("ast")
+        if not ast or f.rel.endswith(("mfan.c", "mfanf.c")):
+            continue
+        seq = seq_of(ast)
+        for i, (e, nd) in enumerate(seq):
+            for c in calls_in(e, True):
+                if c[1] != "ANannlist" or len(c[3]) < 5:
+                    continue
+                n += 1
+                key = "LISTCAP:%s#%d" % (f.name, sum(1 for k in ctx.instances if k.key.startswith("LISTCAP:%s#" % f.name)) + 1)
+                line = nd[-3] if isinstance(nd[-3], int) else f.line
+                buf = strip(c[3][4])
+                if kind(buf) != "var":
+                    ctx.unrecognised("LISTCAP", key, f.where(line), "list argument `%s` is not a plain variable" % render(buf)[:40])
+                    continue
+                # the allocation of the list: last `buf = malloc/calloc(..)` before the call
+                alloc = None
+                for j in range(i - 1, -1, -1):
+                    for x in walk(seq[j][0], True):
+                        rhs = None
+                        if x[0] == "asg" and x[1] == "=" and kind(strip(x[2])) == "var" and strip(x[2])[1] == buf[1]:
+                            rhs = x[3]
+                        elif x[0] == "decl":
+                            for d in x[1]:
+                                if d[0] == buf[1] and d[2] is not None:
+                                    rhs = d[2]
+                        if rhs is not None:
+                            for cc in calls_in(rhs, True):
+                                if cc[1] in ("malloc", "calloc", "HDmalloc", "HDcalloc"):
+                                    alloc = (j, cc)
+                    if alloc:
+                        break
+                if not alloc:
+                    ctx.holds("LISTCAP", key, f.where(line), "`%s` is not allocated in this routine (a fixed or caller-owned list)" % buf[1], nontrivial=False)
+                    continue
+                j, cc = alloc
+                cnt = sorted({y[1] for a_ in cc[3] for y in walk(a_, True) if y[0] == "var"})
+                # every variable of the size expression: its last definition before the allocation is the ANnumann result
+                bad = None
+                for v in cnt:
+                    last = None
+                    for k2 in range(j - 1, -1, -1):
+                        if redefines(seq[k2][0], v) or (kind(seq[k2][0]) == "decl" and any(d[0] == v and d[2] is not None for d in seq[k2][0][1])):
+                            last = seq[k2][0]
+                            break
+                    if last is None:
+                        continue
+                    if not any(x[1] == "ANnumann" for x in calls_in(last, True)):
+                        bad = (v, render(last)[:60])
+                if bad:
+                    ctx.violated("LISTCAP", key, f.where(line), "the list handed to ANannlist holds `%s` ids, and `%s` was last set by `%s`, not by ANnumann: ANannlist stores every annotation id and overruns the block" % (bad[0], bad[0], bad[1]))
+                else:
+                    ctx.holds("LISTCAP", key, f.where(line), "the list handed to ANannlist is allocated for the ANnumann count (%s)" % ", ".join(cnt), nontrivial=True)
+    ctx.floor("LISTCAP", 4, n, "(ANannlist calls outside the annotation interface)")
+    return n
